@@ -589,6 +589,17 @@ class Scenario:
         self.emit("bufferless %d %d %d %d %d %d %d %d %d %s" % (wlog, clog, hlog, r.randint(1, 3), r.randint(3, 6), r.choice([0, 8, 32]), strat,
                                                                  r.randint(0, 1), nch, " ".join(map(str, chunks))), kind="bufferless")
 
+    def bufferless_seq(self, strat, wlog, sizes):
+        r = self.r
+        pos = r.randint(0, self.arena // 2)
+        chunks = []
+        for n in sizes:
+            chunks += [pos, n]
+            pos += n
+        self.emit("nodict")
+        self.emit("bufferless %d %d %d %d %d %d %d %d %d %s" % (wlog, r.randint(6, 12), r.randint(6, 12), 1, r.randint(4, 6), 0, strat, 0, len(sizes),
+                                                                 " ".join(map(str, chunks))), kind="bufferless")
+
     def build(self):
         r = self.r
         n_rounds = 10 if self.quick else 40
@@ -607,6 +618,10 @@ class Scenario:
                 else:
                     self.stream()
             self.bufferless(strat=strat)
+            if i % 3 == 0:
+                # a match finder that never moves nextToUpdate (fast / dfast), a window smaller than a block, searched blocks
+                # followed by unsearched ones: the clamp of nextToUpdate to lowLimit is the only thing that moves it
+                self.bufferless_seq(strat=r.choice([1, 2]), wlog=r.choice([10, 11, 12]), sizes=[r.choice([100000, 5000, 131071]), 6, 1, r.choice([3000, 100000]), 6, 6])
             # time travel: index near the reset threshold / near ZSTD_CURRENT_MAX
             k = r.random()
             edge = self.CMAX - self.MARGIN
@@ -733,7 +748,7 @@ def predict_frames(sc, out_lines, freq, K):
     return model, expect
 
 
-def compare_prediction(mout, expect):
+def compare_prediction(mout, expect, tiny=7):
     """mout: model output lines; returns mismatches [(desc, field, model, real)]."""
     bad = []
     for idx, d, desc in expect:
@@ -748,6 +763,10 @@ def compare_prediction(mout, expect):
             bad.append((desc, "dictMatchState", m[8], int(d["dms"]))); continue
         if m[9] != int(d["fnc"]):
             bad.append((desc, "forceNonContiguous", m[9], int(d["fnc"]))); continue
+        # nextToUpdate is the match finder's business, except when the whole call was one block below 7 bytes: that block is
+        # not searched, so the value is exactly what the index code (correction, clamp to lowLimit) left
+        if d.get("_t") == "C" and d.get("size", "").isdigit() and 0 < int(d["size"]) < tiny and m[7] != int(d["ntu"]):
+            bad.append((desc, "nextToUpdate after an unsearched block", m[7], int(d["ntu"]))); continue
         if "LW" in d:
             if m[13] != 1 or m[14:20] != ints(d["LW"]) or m[20] != int(d["llde"]):
                 bad.append((desc, "ldm window", m[13:21], ints(d["LW"]) + [int(d["llde"])])); continue
@@ -918,7 +937,7 @@ def ctx_job(exe, mexe, freq, K, seed, arena_mb, quick, extra_cmds=None):
     if rc2 != 0 or len(mout) != len(model):
         res["pred_bad"] = [("model run", "rc", rc2, e2[-200:])]
     else:
-        res["pred_bad"] = compare_prediction(mout, expect)
+        res["pred_bad"] = compare_prediction(mout, expect, tiny=K.get("MIN_CBLOCK_SIZE", 2) + K.get("ZSTD_blockHeaderSize", 3) + 2)
     res["predicted"] = len(expect)
     res["sigs"] = [tuple(l[2]) for l in model] + [("ctx", parse_ctx_line(l).get("api"), parse_ctx_line(l).get("ap", "").split(",")[3:6] and tuple(parse_ctx_line(l).get("ap", "0,0,0,0,0,0").split(",")[3:6])) for l in lines if l[:2] in ("F ", "C ")]
     res["sample"] = [l[:260] for l in lines if l.startswith("F ")][:2]
